@@ -17,6 +17,14 @@ fn main() {
         probe(&args[1..]);
         return;
     }
+    if id == "fuzz-artifact" {
+        // fuzz-artifact <target> <file>: decode a libFuzzer artifact into the C07 replay case (JSON on stdout)
+        let target = args.get(1).cloned().unwrap_or_default();
+        let data = std::fs::read(args.get(2).cloned().unwrap_or_default()).unwrap_or_default();
+        let case = swiftmt_verif::props::c07::decode_fuzz_input(&target, &data);
+        println!("{}", serde_json::json!({"property": "C07", "sub": "fuzz", "signature": "", "case": case}));
+        return;
+    }
     let mut tier = match std::env::var("VERIF_TIER").as_deref() {
         Ok("thorough") => Tier::Thorough,
         _ => Tier::Quick,
